@@ -144,6 +144,24 @@ def check_C17(c):
         raise tlc.MachineryError('no call histories from the simulation:\n' + res['out'][-1500:])
     c.rng.shuffle(hist)
     hist = hist[:_q(c, 250, 6000)]
+    # directed histories (Purity!DSpec, enumerated completely): a derived graph meets its source as the other operand
+    dres = tlc.run_tlc('Purity', cfg='PurityD.cfg', workers=4, heap='4g', tag='Purity_directed')
+    dh = {}
+    for line in dres['out'].splitlines():
+        m = tlc._EXPORT.match(line.strip())
+        if m:
+            h = json.loads(tlc._unquote(m.group(1)))
+            dh[json.dumps(h, sort_keys=True)] = h
+    if tlc.tlc_failed(dres) or not dh:
+        raise tlc.MachineryError('no directed histories from Purity!DSpec:\n' + dres['out'][-1500:])
+    directed = list(dh.values())
+    if c.tier == 'quick':
+        directed = c.rng.sample(directed, min(len(directed), 400))
+    c.states += dres['distinct']
+    c.transitions += dres['states']
+    c.mc_runs.append(dict(module='Purity (DSpec: directed histories, complete enumeration)', cfg='PurityD.cfg', distinct_states=dres['distinct'],
+                          states_generated=dres['states'], behaviours=len(dh), replayed=len(directed), wall_s=round(dres['wall'], 1)))
+    hist = hist + directed
     for i, h in enumerate(hist):
         h['pool_seed'] = c.seed * 1000 + i % 40
     c.transitions += res['states']
@@ -214,8 +232,8 @@ def check_C17(c):
         jobs.append(('tr_api_args', dict(args=args, usage_error=usage)))
     api = pmake(jobs)
     c.judge('J_Api', api, 'api-surface', gating=False)
-    c.rule = ('call histories of 10 calls generated by TLC in simulation mode from Purity.tla (23 operations: interpret, configure, '
-              'reconfigure, format, encode, decode, canonicalize_roles, the four transformations, graph queries, errors, diagnostics, '
+    c.rule = ('call histories of 10 calls generated by TLC in simulation mode from Purity.tla (26 operations: interpret, configure, '
+              'reconfigure, format, encode, decode, a re-laid-out copy, canonicalize_roles, the four transformations, graph queries, errors, diagnostics, triple-conjunction round trip, '
               'alignments, tree nodes/walk, |, -, and the in-place |=, -=, top=, rearrange, reset_variables) on a shared pool of 2 trees '
               'and 2 graphs (40 different seeded pools), each replayed under PYTHONHASHSEED 0, 1, 2 and a seed-derived value and once '
               'inside a multiprocessing worker; the command run as a real subprocess under 4 hash seeds on a stream of 12 graphs x option '
